@@ -1,0 +1,122 @@
+//! Verification hooks (feature `verif-hooks`, off by default).
+//!
+//! Everything here is inert unless a sink / override is installed by an external
+//! monitoring harness. Nothing in this module is compiled without the feature.
+
+use std::sync::Arc;
+use std::sync::RwLock;
+
+/// Events emitted at hooked state transitions. Plain data, one variant per hook.
+#[derive(Debug, Clone, PartialEq)]
+pub enum VerifEvent {
+    /// A role transition completed inside `Raft::handle_internal_event`.
+    RoleChange {
+        node: u32,
+        from: i32,
+        to: i32,
+        term: u64,
+    },
+    /// `SharedState::current_term` changed.
+    Term { node: u32, old: u64, new: u64 },
+    /// `SharedState::voted_for` was set.
+    Vote {
+        node: u32,
+        term: u64,
+        candidate: u32,
+        committed: bool,
+        current_term: u64,
+    },
+    /// `SharedState::voted_for` was cleared.
+    VoteReset { node: u32, term: u64 },
+    /// Commit index advanced (or was re-asserted) on a node.
+    Commit {
+        node: u32,
+        leader: bool,
+        term: u64,
+        old: u64,
+        new: u64,
+    },
+    /// A read was answered from local state.
+    ReadServed {
+        node: u32,
+        path: &'static str,
+        policy: &'static str,
+        term: u64,
+    },
+    /// Leader notification published on the leader-change watch.
+    LeaderNotify {
+        node: u32,
+        leader: Option<u32>,
+        term: u64,
+    },
+}
+
+type Sink = Arc<dyn Fn(&VerifEvent) + Send + Sync>;
+type Clock = Arc<dyn Fn() -> u64 + Send + Sync>;
+type TimeoutFn = Arc<dyn Fn(u64, u64) -> u64 + Send + Sync>;
+type PointFn = Arc<dyn Fn(&'static str) + Send + Sync>;
+
+static SINK: RwLock<Option<Sink>> = RwLock::new(None);
+static CLOCK: RwLock<Option<Clock>> = RwLock::new(None);
+static ELECTION_TIMEOUT: RwLock<Option<TimeoutFn>> = RwLock::new(None);
+static SCHED_POINT: RwLock<Option<PointFn>> = RwLock::new(None);
+static CRASH_POINT: RwLock<Option<PointFn>> = RwLock::new(None);
+
+pub fn set_sink(sink: Option<Sink>) {
+    *SINK.write().unwrap() = sink;
+}
+
+#[inline]
+pub fn emit(ev: VerifEvent) {
+    let sink = SINK.read().unwrap().clone();
+    if let Some(s) = sink {
+        s(&ev);
+    }
+}
+
+pub fn set_clock_override(clock: Option<Clock>) {
+    *CLOCK.write().unwrap() = clock;
+}
+
+#[inline]
+pub fn clock_override() -> Option<u64> {
+    let c = CLOCK.read().unwrap().clone();
+    c.map(|f| f())
+}
+
+pub fn set_election_timeout_override(f: Option<TimeoutFn>) {
+    *ELECTION_TIMEOUT.write().unwrap() = f;
+}
+
+#[inline]
+pub fn election_timeout_override(
+    min: u64,
+    max: u64,
+) -> Option<u64> {
+    let f = ELECTION_TIMEOUT.read().unwrap().clone();
+    f.map(|f| f(min, max).clamp(min, max.saturating_sub(1).max(min)))
+}
+
+pub fn set_sched_point(f: Option<PointFn>) {
+    *SCHED_POINT.write().unwrap() = f;
+}
+
+#[inline]
+pub fn sched_point(name: &'static str) {
+    let f = SCHED_POINT.read().unwrap().clone();
+    if let Some(f) = f {
+        f(name);
+    }
+}
+
+pub fn set_crash_point(f: Option<PointFn>) {
+    *CRASH_POINT.write().unwrap() = f;
+}
+
+#[inline]
+pub fn crash_point(name: &'static str) {
+    let f = CRASH_POINT.read().unwrap().clone();
+    if let Some(f) = f {
+        f(name);
+    }
+}
